@@ -22,7 +22,7 @@ EXIT_SKIPS_NONE = {"dtypeGP": False, "dtypeLO": True}  # code-shaped: gpytorch's
                                                         # (after the fix: commit), linear_operator's skips None
 
 
-def write_mc(workdir, name, settings, depth, maxlen, record, exit_skips=None, warn_before_set=True):
+def write_mc(workdir, name, settings, depth, maxlen, record, exit_skips=None, warn_before_set=True, lib_reuses=False, with_lib=True):
     """settings: {name: dict(kind=, defon=, halfnone=)}; returns absolute module path (without .tla) and cfg."""
     os.makedirs(workdir, exist_ok=True)
     mod = "MC_Settings_" + name
@@ -43,9 +43,9 @@ def write_mc(workdir, name, settings, depth, maxlen, record, exit_skips=None, wa
     cfg = os.path.join(workdir, mod + ".cfg")
     tlc.write_cfg(cfg, spec="Spec",
                   constants={"Setting": "<- SettingDef", "Kind": "<- KindDef", "DefOn": "<- DefOnDef", "HalfNone": "<- HalfNoneDef",
-                             "ExitSkipsNone": "<- ExitSkipsNoneDef", "WarnsOnEnter": "<- WarnsDef", "WarnBeforeSet": warn_before_set, "MaxDepth": depth, "MaxLen": maxlen, "RecordHist": record},
+                             "ExitSkipsNone": "<- ExitSkipsNoneDef", "WarnsOnEnter": "<- WarnsDef", "WarnBeforeSet": warn_before_set, "LibReusesObject": lib_reuses, "WithLibOp": with_lib, "MaxDepth": depth, "MaxLen": maxlen, "RecordHist": record},
                   invariants=["TypeOK", "InnermostWins", "DefaultsOutside"],
-                  properties=["RestoredOnExit", "EnterIsLocal", "ConstructIsPure"])
+                  properties=["RestoredOnExit", "EnterIsLocal", "ConstructIsPure", "LibOpIsInvisible"])
     return os.path.join(workdir, mod + ".tla"), cfg
 
 
@@ -75,6 +75,7 @@ GEN_RUNS = {  # name -> (settings, depth, maxlen quick, maxlen thorough)
     "ld": ({"ld": dict(kind="ld")}, 3, 4, 6),
     "mixed": ({"fT": dict(kind="flag", defon="T"), "val": dict(kind="value"), "fpv": dict(kind="fpv", defon="F")}, 3, 6, 6),
     "warns": ({"wv": dict(kind="value", warns=True), "fF": dict(kind="flag", defon="F")}, 2, 5, 6),
+    "libops": ({"fF": dict(kind="flag", defon="F"), "val": dict(kind="value")}, 2, 4, 5),      # with the LibOp action
 }
 
 
@@ -243,7 +244,7 @@ class Mismatch(Exception):
         self.step, self.what, self.cls, self.clause, self.fields = step, what, cls, clause, tuple(fields)
 
 
-CLAUSE = {"Construct": "ConstructIsPure", "Enter": "EnterSetsRequested", "Exit": "RestoredOnExit", "Raise": "RestoredOnExit", "EnterFails": "FailedEnterLeavesNoEffect"}
+CLAUSE = {"LibOp": "LibOpIsInvisible", "Construct": "ConstructIsPure", "Enter": "EnterSetsRequested", "Exit": "RestoredOnExit", "Raise": "RestoredOnExit", "EnterFails": "FailedEnterLeavesNoEffect"}
 
 
 def diff_fields(got, want):
@@ -338,6 +339,12 @@ def run_program(real, ops, mapping, rnd):
                     check(i - 1)  # ops[i-1] is the Exit that closed this block
                 else:
                     return i, False  # the behaviour ended with this block open; it has just been exited normally
+            elif op["a"] == "LibOp":
+                # library code needing a setting for one internal computation: construct + enter + exit within one call
+                with real.construct(mapping[op["s"]], op["args"], rnd):
+                    pass
+                check(i)
+                i += 1
             elif op["a"] == "Exit":
                 return i + 1, True
             elif op["a"] == "Raise":
@@ -353,6 +360,146 @@ def run_program(real, ops, mapping, rnd):
         n, got, want = bad[0]
         raise Mismatch(len(ops), "after the program ended (all blocks exited) %s reads %r instead of its documented default %r" % (n, got, want),
                        n, "RestoredOnExit", diff_fields(got, want))
+
+
+_PRISTINE_REAL = None
+
+
+def _pristine_child(a):
+    """runs in a process forked from a parent that has never entered any settings block: setting `a` is entered first"""
+    real = _PRISTINE_REAL
+    rnd = random.Random(0)
+    names = sorted(n for n, e in real.entries.items() if e["cls"] is not None)
+
+    def nondefault(n):
+        k = real.entries[n]["kind"]
+        if k == "flag":
+            return {"state": "F" if real.parse(real.entries[n]["default"]["state"]) else "T"}
+        if k == "value":
+            return {"v": "v1"}
+        return None
+    out = []
+    aa = nondefault(a)
+    defaults = {n: {f: real.parse(v) for f, v in real.entries[n]["default"].items()} for n in names}
+    aff_a = affected(real, {a})
+
+    def others_default(skip, when, r):
+        for n in names:
+            if n in skip:
+                continue
+            got = real.observe(n)
+            if not same(got, defaults[n]):
+                r.update(ok=False, sig="C20/cross-setting/%s-changes-%s" % (a, n), detail="%s: %s reads %r instead of its default %r (first blocks of a fresh process)" % (
+                    when, n, got, defaults[n]), case=dict(pristine=a))
+                return False
+        return True
+    # both an explicit non-default AND the explicit default value for the outer block (state shared between classes can hide behind either)
+    a_values = [{"state": "T"}, {"state": "F"}] if real.entries[a]["kind"] == "flag" else [{"v": "v1"}, {"v": "d0"}]
+    for b, aa in [(b_, v_) for b_ in names for v_ in a_values]:
+        bb = nondefault(b)
+        if b == a or bb is None:
+            continue
+        r = dict(key=["pristine", a, aa, b], ok=True, nontrivial=True, sig="C20/cross-setting/%s" % a, case=dict(pristine=a))
+        aff = aff_a | affected(real, {b})
+        with real.construct(a, aa, rnd):
+            if others_default(aff_a, "inside `with %s(...)`" % a, r):
+                with real.construct(b, bb, rnd):
+                    others_default(aff, "inside `with %s(...): with %s(...)`" % (a, b), r)
+                if r["ok"]:
+                    others_default(aff_a, "after the inner block of `with %s(...): with %s(...)`" % (a, b), r)
+        if r["ok"]:
+            others_default(set(), "after `with %s(...): with %s(...)`" % (a, b), r)
+        out.append(r)
+        if not r["ok"]:
+            break
+    return out
+
+
+def pristine_pairs(real):
+    """every ordered pair of flag / value settings, the outer one being the FIRST block its process ever enters (one forked process
+    per outer setting): no setting may read anything but its default because ANOTHER setting's block is active or was exited"""
+    import multiprocessing as mp
+    global _PRISTINE_REAL
+    _PRISTINE_REAL = real
+    outer = sorted(n for n, e in real.entries.items() if e["cls"] is not None and e["kind"] in ("flag", "value"))
+    ctx = mp.get_context("fork")
+    with ctx.Pool(processes=min(core.NPROC, 8), maxtasksperchild=1) as pool:
+        res = pool.map(_pristine_child, outer, chunksize=1)
+    return [r for rs in res for r in rs]
+
+
+def lib_sweep(real, seed):
+    """LibOpIsInvisible on the real library: operations that enter settings blocks internally (lazy kernel evaluation, exact prediction,
+    heteroskedastic noise, fantasy models, objectives, variational calls) are run INSIDE user blocks of every catalogued setting (a
+    non-default value and the default value); every visible setting must read the same before and after the operation."""
+    import torch
+    import gpytorch
+    from checks import gpmodels as G
+    rnd = random.Random(seed)
+    x, y, xs = G.data(3)
+    out = []
+
+    def mk_ops():
+        m, l = G.build("exact", x, y)
+        m.eval(); l.eval()
+        lazy = m.covar_module(xs)                         # created OUTSIDE the user's block, evaluated inside
+        sv, sl = G.build("svgp", x, y)
+        sv.eval()
+
+        def hetero():
+            nm, nl = G.build("exact", x, y.abs() + 0.1)
+            nm.eval()
+            hl = gpytorch.likelihoods._GaussianLikelihoodBase(noise_covar=gpytorch.likelihoods.noise_models.HeteroskedasticNoise(nm)).double()
+            return hl(gpytorch.distributions.MultivariateNormal(torch.zeros(3, dtype=torch.float64), torch.eye(3, dtype=torch.float64)), xs)
+
+        def objective():
+            m.train(); l.train()
+            v = gpytorch.mlls.ExactMarginalLogLikelihood(l, m)(m(x), y)
+            m.eval(); l.eval()
+            return v
+        return {"evaluate-lazy-kernel": lambda: lazy.to_dense(), "exact-predict": lambda: m(xs).variance, "heteroskedastic-noise": hetero,
+                "fantasy": lambda: (m(xs), m.get_fantasy_model(xs[:1], y[:1]))[1](xs).mean, "exact-mll": objective, "svgp-call": lambda: sv(xs).variance}
+
+    blocks = [None]
+    for n, e in sorted(real.entries.items()):
+        if e["cls"] is None:
+            continue
+        k = e["kind"]
+        fields = sorted(e["default"])
+        if k == "flag":
+            blocks += [(n, {"state": "T"}), (n, {"state": "F"})]
+        elif k == "value":
+            blocks += [(n, {"v": "v1"}), (n, {"v": "d0"})]
+    for blk in blocks:
+        ops = mk_ops()
+        names = sorted(real.entries)
+        for opname, fn in sorted(ops.items()):
+            key = ["lib", opname, list(blk) if blk else None]
+            r = dict(key=key, ok=True, nontrivial=blk is not None, sig="C20/library-operation/%s" % opname, case=dict(lib=opname, block=blk))
+
+            def once():
+                before = {n: real.observe(n) for n in names}
+                try:
+                    fn()
+                except Exception:
+                    pass                                 # an operation that a setting makes fail must still leave the settings alone
+                after = {n: real.observe(n) for n in names}
+                return [n for n in names if not same(before[n], after[n])], before, after
+            if blk is None:
+                changed, before, after = once()
+            else:
+                with real.construct(blk[0], blk[1], rnd):
+                    changed, before, after = once()
+            if changed:
+                n0 = changed[0]
+                r.update(ok=False, sig=r["sig"] + "/" + n0, detail="library operation %s inside `with %s(%s)`: %s read %r before and %r after the operation" % (
+                    opname, blk[0] if blk else "-", blk[1] if blk else "", n0, before[n0], after[n0]))
+            out.append(r)
+    bad = real.all_defaults()
+    if bad:
+        out.append(dict(key=["lib", "defaults-after"], ok=False, nontrivial=True, sig="C20/library-operation/defaults-after/%s" % bad[0][0],
+                        detail="after the library-operation sweep %s reads %r instead of %r" % bad[0], case=dict(lib="all")))
+    return out
 
 
 _REAL = None
@@ -504,6 +651,7 @@ def run(ck):
     _CATALOG = catalog
     core.setup_torch()
     real = Real(catalog)
+    ck.absorb(pristine_pairs(real))        # first: this process has not entered any settings block yet
 
     # (0) the catalog covers exactly what is exported, every class exists, and reports its documented default
     import gpytorch
@@ -524,6 +672,12 @@ def run(ck):
         ck.require_coverage(res, ["Construct", "Enter", "Pop"])
         if not res.ok:
             ck.model_drift("Settings.tla run %s violates %s on the code-shaped model" % (name, res.violation["name"]))
+    mod, cfg = write_mc(wd, "lib_reuses_object", {"fF": dict(kind="flag", defon="F"), "val": dict(kind="value")}, 2, 0, False, lib_reuses=True)
+    res = tlc.run(mod, cfg, name=PID + "/mc_lib_reuses_object", timeout=600, check=False)
+    ck.add_tlc(res, "MC library code reusing one context object (must be rejected)")
+    if not res.violation:
+        ck.vacuous("Settings.tla accepts library code that re-enters a context object built at import")
+    ck.absorb(lib_sweep(real, ck.seed))
     predictions = {}
     for name, (settings, d) in PREDICT_RUNS.items():
         mod, cfg = write_mc(wd, name, settings, d, 0, False)
@@ -538,7 +692,7 @@ def run(ck):
     nbeh = 0
     for name, (settings, depth, lq, lt) in GEN_RUNS.items():
         maxlen = lt if thorough else lq
-        mod, cfg = write_mc(gwd, name, settings, depth, maxlen, True)
+        mod, cfg = write_mc(gwd, name, settings, depth, maxlen, True, with_lib=(name == "libops"))
         res = tlc.run(mod, cfg, name=PID + "/gen_" + name, timeout=1800, dump=True, check=False, coverage=False, heap="8g")
         if res.violation is None and (res.rc != 0):
             raise tlc.TLCError("generation run %s failed:\n%s" % (name, res.stdout[-2000:]))
